@@ -38,9 +38,27 @@ def all_cases(tier):
     return cases
 
 
+def example_cases(tier):
+    """shipped examples as models: (entry name, kwargs, back-end)"""
+    from mc import examples_table as T
+    out = []
+    for name, e in T.ENTRIES.items():
+        g = e["grid"] if tier != "quick" else e["grid"][:2]
+        for i, kw in enumerate(g):
+            if kw.get("n", 1) > 6:
+                continue
+            out.append((name, kw, "cvxpy"))
+            if tier != "quick" or i == 0:
+                out.append((name, kw, "mosek"))
+    return out
+
+
 def shards(tier):
     n = len(all_cases(tier))
-    return [dict(lo=lo, hi=min(n, lo + CHUNK)) for lo in range(0, n, CHUNK)]
+    out = [dict(lo=lo, hi=min(n, lo + CHUNK)) for lo in range(0, n, CHUNK)]
+    ne = len(example_cases(tier))
+    out += [dict(kind="examples", lo=lo, hi=min(ne, lo + 8)) for lo in range(0, ne, 8)]
+    return out
 
 
 def post_depth(tier, idx):
@@ -48,6 +66,21 @@ def post_depth(tier, idx):
 
 
 def run_shard(shard, tier):
+    if shard.get("kind") == "examples":
+        ev = nontriv = 0
+        outcomes, viol, samples = {}, [], []
+        for name, kw, be in example_cases(tier)[shard["lo"]:shard["hi"]]:
+            r = solved.run_example_as_model(name, kw, be)
+            ev += 1
+            nontriv += r["outcome"] == "judged"
+            oc = "example:%s:%s" % (be, r["outcome"])
+            outcomes[oc] = outcomes.get(oc, 0) + 1
+            for key, msg in r[WHICH]:
+                viol.append(dict(key=key, msg=msg, case=dict(kind="example", example=name, kwargs=kw, backend=be)))
+            if not samples:
+                samples.append(dict(kind="example", example=name, kwargs=kw, backend=be, outcome=r["outcome"]))
+        return dict(evaluations=ev, states=ev, transitions=ev, nontrivial=int(nontriv), outcomes=outcomes, violations=viol, samples=samples,
+                    extra={"examples_judged": int(nontriv)})
     cases = all_cases(tier)[shard["lo"]:shard["hi"]]
     ev = nontriv = 0
     outcomes, viol, samples = {}, [], []
@@ -67,6 +100,9 @@ def run_shard(shard, tier):
 
 
 def replay(case):
+    if case.get("kind") == "example":
+        r = solved.run_example_as_model(case["example"], case["kwargs"], case["backend"])
+        return [dict(key=k, msg=m, case=case) for k, m in r[WHICH]]
     r = solved.run(case["spec"], case["config"], post_depth=case.get("post_depth", 0))
     return [dict(key=k, msg=m, case=case) for k, m in r[WHICH]]
 
@@ -78,8 +114,9 @@ def meta(tier):
              "symmetric / non-symmetric / reordered / unsent LMIs, partitions, function-level constraints and LMIs, "
              "several metrics, second function, duplicate evaluation); composites with plain/zero/cancelling/weighted "
              "sums; alternative primitive steps; one model with > 128 rows) under the configuration plan "
-             "(cvxpy+CLARABEL, MOSEK stand-in, library default solver, trace/logdet reduction, verbose 1/2); a state is "
-             "a (model, configuration) pair, non-trivial = solved to optimality and judged.",
+             "(cvxpy+CLARABEL, MOSEK stand-in, library default solver, trace/logdet reduction, verbose 1/2); plus every "
+             "shipped example with a closed form (74 entries, first grid points, both back-ends) solved as it is written and "
+             "judged from inside PEP.solve; a state is a (model, configuration) pair, non-trivial = solved to optimality and judged.",
         bounds=dict(configs=[c for c, _ in config_plan(tier)], specs=len(models.enumerate_specs(tier)) + 1),
         exhaustive=True,
         assumptions=["CLARABEL / SCS return what they claim within tolerance (2e-6 / 5e-3 relative, frozen after "
